@@ -306,6 +306,20 @@ func (g *gen) listValues(key string) []string {
 	case "skip_auth_regex":
 		pool = []string{`^/health$`, `^/public/.*`, `\.css$`, `^/api/v[0-9]+/ping$`, `^/` + g.tv("prefix") + `/open$`, `^/hook` + g.tv("sfx") + `/$`, `^\/github-webhook\/$`, `^/public/` + g.tv("pat"), `^/` + g.tv("a.b") + `/.*$`}
 	}
+	if key != "skip_auth_regex" && g.p(9) {
+		// a list that is STATED but holds only blank entries (literally, or through a variable that is set
+		// to nothing): it still is what the block states - it replaces the inherited list and admits nobody -
+		// and must not silently give way to the broader default (added after seeded change C14l)
+		switch g.r.Intn(4) {
+		case 0:
+			return []string{""}
+		case 1:
+			return []string{g.tv("sfx")}
+		case 2:
+			return []string{"", g.tv("sfx")}
+		}
+		return []string{" "}
+	}
 	n := 1 + g.r.Intn(3)
 	if n > len(pool) {
 		n = len(pool)
